@@ -182,7 +182,10 @@ def base_argv(case, files, out_zip, cfg):
     if o.get("plot"):
         # plotting happens before the result is saved: whatever the plot code does, the saved result must stay the same
         pl = o["plot"]
-        argv += ["--serialize_plot", out_zip[:-4] + ".plot", "--plot_x_dimension", pl["x"], "--plot_mode", pl["mode"]]
+        # (a serialised plot cannot hold the tick formatter of a non-metre length unit - evo fails to pickle it, which is
+        # none of the listed properties: such cases save an image instead)
+        argv += (["--save_plot", out_zip[:-4] + ".png"] if pl.get("len_unit") else ["--serialize_plot", out_zip[:-4] + ".plot"])
+        argv += ["--plot_x_dimension", pl["x"], "--plot_mode", pl["mode"]]
         if pl.get("pct") is not None:
             argv += ["--plot_colormap_max_percentile", str(pl["pct"])]
         if pl.get("cmin") is not None:
